@@ -279,11 +279,15 @@ def param_values(p: Project, m: Func, name: str) -> Optional[List[Tuple[Optional
     ``[(scope, expression)]`` - the declared default (scope None) when some call omits it, the argument expressions otherwise.
     An extra parameter with a default that no caller passes therefore evaluates to its default only ("omitted").  None when the
     uses of `m` cannot be enumerated (public name, bound-method reference, star-arguments)."""
-    if not m.name.startswith('_') or m.name.startswith('__'):
-        return None
+    if m.name.startswith('__') or not (m.name.startswith('_') or name.startswith('_')):
+        return None         # a public parameter of a public function is an input of the API, not of the package's own calls
     ps = call_sites(p, m).passed(name)
-    if ps is None or not ps:
+    if ps is None:
         return None
+    if not ps:
+        # no call in the package at all (an entry point of the API): nobody supplies it
+        d = param_default(m, name)
+        return [(None, d)] if d is not None else None
     out: List[Tuple[Optional[Func], ast.AST]] = []
     for (g, v) in ps:
         if v is None:
@@ -295,6 +299,57 @@ def param_values(p: Project, m: Func, name: str) -> Optional[List[Tuple[Optional
         else:
             out.append((g, v))
     return out
+
+
+def inert_atom(p: Project, func: Func):
+    """atom(e) for tests over a parameter that has a constant default, is never rebound and that no call of the analysed package
+    supplies (`def _require_accepted(self, _allow_closed: bool = False)`): the test evaluates as for the default ("omitted").
+    None for everything else."""
+    cache: Dict[str, Optional[ast.Constant]] = {}
+
+    def const_of(name: str) -> Optional[ast.Constant]:
+        if name not in cache:
+            v = None
+            if name in func.params() and name not in ('self', 'cls') and not local_defs(func, name):
+                pv = param_values(p, func, name)
+                if pv is not None and len(pv) == 1 and pv[0][0] is None and isinstance(pv[0][1], ast.Constant):
+                    v = pv[0][1]
+            cache[name] = v
+        return cache[name]
+
+    def atom(e):
+        if isinstance(e, ast.Name) and isinstance(e.ctx, ast.Load):
+            c = const_of(e.id)
+            return {bool(c.value)} if c is not None else None
+        if isinstance(e, ast.Compare) and len(e.ops) == 1 and isinstance(e.left, ast.Name) and isinstance(e.comparators[0], ast.Constant):
+            c = const_of(e.left.id)
+            if c is None:
+                return None
+            a, b, op = c.value, e.comparators[0].value, e.ops[0]
+            if isinstance(op, ast.Is):
+                return {a is b}
+            if isinstance(op, ast.IsNot):
+                return {a is not b}
+            if isinstance(op, ast.Eq):
+                return {a == b}
+            if isinstance(op, ast.NotEq):
+                return {a != b}
+        return None
+
+    return atom
+
+
+def with_inert(p: Optional[Project], func: Optional[Func], atom):
+    """`atom`, falling back to the evaluation of inert parameters (inert_atom) for what it does not decide."""
+    if p is None or func is None:
+        return atom
+    ia = inert_atom(p, func)
+
+    def both(e):
+        r = atom(e)
+        return r if r is not None else ia(e)
+
+    return both
 
 
 def _none_truth_atom(name: str, is_none: Optional[bool]):
@@ -371,6 +426,12 @@ def return_kinds(project: Project, func: Func, depth=0) -> Dict[str, List[ast.AS
             q = p.resolve_expr(func.module, e.func, func)
             if q is not None and p.is_subclass(q, 'builtins.BaseException') is True:
                 return [q]
+            # `return self._disconnected(code)`: a synchronous factory of the class / module hands back what IT can return
+            g = p.callee(func, e)
+            if isinstance(g, Func) and g is not func and not g.is_async and depth < 2:
+                sub = return_kinds(p, g, depth + 1)
+                if 'builtins.BaseException' not in sub:      # (a factory that hands back its own argument is not read)
+                    return sorted(sub)
             raise UnknownIdiom('%s: returns %s' % (func.qual, short(e)))
         if isinstance(e, ast.Name):
             if e.id in params:
@@ -525,16 +586,11 @@ class WSModel:
         return False
 
     def _fresh_state_alias(self, func: Func, name: str) -> bool:
-        from .. import flow
         ds = local_defs(func, name)
         if not (len(ds) == 1 and ds[0] is not None and self.is_state(ds[0])):
             if any(d is not None and self.is_state(d) for d in ds):
                 raise UnknownIdiom('%s: the local %s is bound to the state attribute and to something else' % (func.qual, name))
             return False
-        cfg = cfg_of(func, self.p)
-        bind = [n.id for n in cfg.live_nodes() if n.kind == 'stmt' and isinstance(n.ast, (ast.Assign, ast.AnnAssign)) and n.ast.value is ds[0]]
-        if len(bind) < 1:
-            raise UnknownIdiom('%s: binding of %s to the state attribute is not a plain statement' % (func.qual, name))
 
         def dirty(n) -> bool:
             if n.susp:
@@ -548,6 +604,16 @@ class WSModel:
                     return True
             return False
 
+        return self._fresh_snapshot(func, name, ds[0], dirty, 'the state attribute', 'the state may have changed')
+
+    def _fresh_snapshot(self, func: Func, name: str, bound, dirty, what: str, why: str) -> bool:
+        """The once-bound local `name` (a snapshot of `what`) cannot be stale where it is used: no path from the binding to a
+        use passes a `dirty` node.  A snapshot that CAN be stale is an unknown idiom (the cell analysis tracks the attribute)."""
+        from .. import flow
+        cfg = cfg_of(func, self.p)
+        bind = [n.id for n in cfg.live_nodes() if n.kind == 'stmt' and isinstance(n.ast, (ast.Assign, ast.AnnAssign)) and n.ast.value is bound]
+        if len(bind) < 1:
+            raise UnknownIdiom('%s: binding of %s to %s is not a plain statement' % (func.qual, name, what))
         uses = [n.id for n in cfg.live_nodes() if n.id not in bind
                 and any(isinstance(x, ast.Name) and x.id == name and isinstance(x.ctx, ast.Load) for x in n.walk())]
         starts = [y for b in bind for (y, l) in cfg.succ[b] if l != 'exc']
@@ -556,21 +622,73 @@ class WSModel:
         after_dirty = flow.reachable(cfg, [y for i in stale_src for (y, _l) in cfg.succ[i]], avoid_nodes=set(bind)) if stale_src else set()
         for u in uses:
             if u in after_dirty or u in stale_src:
-                raise UnknownIdiom('%s: the local %s (a snapshot of the state attribute) is used in `%s` after the state may have changed'
-                                   % (func.qual, name, short(cfg.node(u).ast if cfg.node(u).ast is not None else name, 60)))
+                raise UnknownIdiom('%s: the local %s (a snapshot of %s) is used in `%s` after %s'
+                                   % (func.qual, name, what, short(cfg.node(u).ast if cfg.node(u).ast is not None else name, 60), why))
         return True
+
+    def _disc_expr(self, func: Func, e) -> bool:
+        """`e` reads the receiver's client_disconnected flag: `self.<receiver>.client_disconnected`, or through a local bound once
+        to the receiver"""
+        if self.is_disc(e):
+            return True
+        if isinstance(e, ast.Attribute) and e.attr == 'client_disconnected' and isinstance(e.value, ast.Name) and e.value.id != 'self' \
+                and e.value.id not in func.params():
+            ds = local_defs(func, e.value.id)
+            return len(ds) == 1 and isinstance(ds[0], ast.Attribute) and ds[0].attr == self.buf_attr and isinstance(ds[0].value, ast.Name) \
+                and ds[0].value.id == 'self'
+        return False
+
+    def reads_disc(self, func: Func, e) -> bool:
+        """`e` evaluates to the CURRENT value of the flag: the flag itself, or a local bound exactly once to it
+        (``disconnected = self._buffered_receiver.client_disconnected``) with no suspension point (where the pump may raise the
+        flag) between the binding and the use."""
+        if self._disc_expr(func, e):
+            return True
+        if not (isinstance(e, ast.Name) and isinstance(e.ctx, ast.Load)) or e.id in func.params():
+            return False
+        key = (func.qual, e.id, 'disc')
+        if key not in self._alias_memo:
+            ds = local_defs(func, e.id)
+            if not (len(ds) == 1 and ds[0] is not None and self._disc_expr(func, ds[0])):
+                if any(d is not None and self._disc_expr(func, d) for d in ds):
+                    raise UnknownIdiom('%s: the local %s is bound to the disconnect flag and to something else' % (func.qual, e.id))
+                self._alias_memo[key] = False
+            else:
+                self._alias_memo[key] = self._fresh_snapshot(func, e.id, ds[0], lambda n: n.susp, 'the client_disconnected flag',
+                                                             'a suspension point (the pump may have raised it)')
+        return self._alias_memo[key]
 
     def is_disc(self, e) -> bool:
         return (isinstance(e, ast.Attribute) and e.attr == 'client_disconnected' and isinstance(e.value, ast.Attribute)
                 and e.value.attr == self.buf_attr and isinstance(e.value.value, ast.Name) and e.value.value.id == 'self')
 
+    def _raw_alias_calls(self) -> Dict[int, str]:
+        """id(call node) -> 'send' | 'recv' for the calls, in the methods of the class, of a local bound exactly once to the raw
+        ASGI callable (`send = self._asgi_send` ... `await send(event)`): a local bound once is what it aliases."""
+        m = getattr(self, '_raw_alias_memo', None)
+        if m is None:
+            m = {}
+            for f in self.cls.methods.values():
+                for c in walk_self(f.node):
+                    if isinstance(c, ast.Call) and isinstance(c.func, ast.Name) and c.func.id not in f.params():
+                        ds = local_defs(f, c.func.id)
+                        if len(ds) == 1 and isinstance(ds[0], ast.Attribute) and isinstance(ds[0].value, ast.Name) and ds[0].value.id == 'self':
+                            if ds[0].attr == self.raw_send:
+                                m[id(c)] = 'send'
+                            elif ds[0].attr == self.raw_recv:
+                                m[id(c)] = 'recv'
+            self._raw_alias_memo = m
+        return m
+
     def is_raw_send_call(self, c) -> bool:
-        return (isinstance(c, ast.Call) and isinstance(c.func, ast.Attribute) and c.func.attr == self.raw_send
-                and isinstance(c.func.value, ast.Name) and c.func.value.id == 'self')
+        return isinstance(c, ast.Call) and ((isinstance(c.func, ast.Attribute) and c.func.attr == self.raw_send
+                                             and isinstance(c.func.value, ast.Name) and c.func.value.id == 'self')
+                                            or self._raw_alias_calls().get(id(c)) == 'send')
 
     def is_raw_recv_call(self, c) -> bool:
-        return (isinstance(c, ast.Call) and isinstance(c.func, ast.Attribute) and c.func.attr == self.raw_recv
-                and isinstance(c.func.value, ast.Name) and c.func.value.id == 'self')
+        return isinstance(c, ast.Call) and ((isinstance(c.func, ast.Attribute) and c.func.attr == self.raw_recv
+                                             and isinstance(c.func.value, ast.Name) and c.func.value.id == 'self')
+                                            or self._raw_alias_calls().get(id(c)) == 'recv')
 
     def atom_for(self, func: Func, cell, depth=0):
         s, d = cell
@@ -595,15 +713,9 @@ class WSModel:
                         return {isin} if isinstance(op, ast.In) else {not isin}
                     raise UnknownIdiom('%s: state test %s' % (func.qual, short(e)))
                 return None
-            if self.is_disc(e):
+            if self.reads_disc(func, e):
+                # the flag, read in place, through a local bound once to the receiver, or through a fresh snapshot local
                 return {d}
-            if isinstance(e, ast.Attribute) and e.attr == 'client_disconnected' and isinstance(e.value, ast.Name) and e.value.id != 'self' \
-                    and e.value.id not in func.params():
-                # receiver = self.<buffered receiver> ... receiver.client_disconnected (single-assignment local alias)
-                ds = local_defs(func, e.value.id)
-                if len(ds) == 1 and isinstance(ds[0], ast.Attribute) and ds[0].attr == self.buf_attr and isinstance(ds[0].value, ast.Name) \
-                        and ds[0].value.id == 'self':
-                    return {d}
             if self.reads_state(func, e):
                 raise UnknownIdiom('%s: bare use of the state in a condition: %s' % (func.qual, short(e)))
             if isinstance(e, ast.Attribute) and isinstance(e.value, ast.Name) and e.value.id == 'self' and depth < 4:
@@ -611,11 +723,41 @@ class WSModel:
                 if m is not None and m.is_property():
                     body = single_return_expr(m)
                     if body is None:
-                        return None
+                        return self._property_truth(m, cell, depth + 1)
                     return possible(body, self.atom_for(m, cell, depth + 1))
             return None
 
-        return atom
+        return with_inert(self.p, func, atom)
+
+    def _property_truth(self, m: Func, cell, depth: int) -> Optional[Set[bool]]:
+        """Truth values a status property that is more than one return expression can have in `cell`
+        (`disconnected = self._buffered_receiver.client_disconnected` ... `return self._state == CLOSED or disconnected`): the
+        returns reachable when the branch tests are evaluated for the cell, each evaluated for the cell.  None (not decided) when
+        the property suspends, writes the state or calls methods of the class."""
+        cfg = cfg_of(m, self.p)
+        if any(n.susp for n in cfg.live_nodes()) or self._writes_state(m.node) or any(
+                self._self_method(m, c) is not None for n in cfg.live_nodes() for c in n.calls()):
+            return None
+        atom = self.atom_for(m, cell, depth)
+        out: Set[bool] = set()
+        seen = {cfg.entry}
+        work = [cfg.entry]
+        while work:
+            nid = work.pop()
+            n = cfg.node(nid)
+            if n.kind == 'stmt' and isinstance(n.ast, ast.Return):
+                out |= possible(n.ast.value, atom) if n.ast.value is not None else {False}
+                continue
+            tv = possible(n.ast, atom) if n.kind == 'test' else None
+            for (y, l) in cfg.succ[nid]:
+                if l == 'exc' or (tv is not None and l in ('T', 'F') and (l == 'T') not in tv):
+                    continue
+                if y == cfg.exit:
+                    out.add(False)      # falls off the end: None
+                elif y not in seen:
+                    seen.add(y)
+                    work.append(y)
+        return out or None
 
     # ---------------------------------------------------------- event types
     def event_type(self, func: Func, expr, env) -> Optional[str]:
